@@ -349,6 +349,19 @@ fn build(case: &Value) -> (String, Expectation) {
                     model.insert(var, Cmd { program: program.to_string(), ..Cmd::default() });
                 }
             }
+            "reset_func" => {
+                // a helper whose only effect is to replace the captured builder; nobody reads its result
+                let program = st["program"].as_str().unwrap();
+                src += &format!(
+                    "do z{fi}() start\n    {} get command({})\n    return 0\nend\nmake q{fi} get z{fi}()\n",
+                    recv(var),
+                    val_lit(&json!(program), computed)
+                );
+                fi += 1;
+                if live && model.contains_key(&var) {
+                    model.insert(var, Cmd { program: program.to_string(), ..Cmd::default() });
+                }
+            }
             "maybe_reset" => {
                 // a helper that would replace the captured builder, but its condition is false
                 src += &format!(
@@ -521,7 +534,7 @@ impl Engine for C15 {
                 14 => steps.push(json!({"s": r.pick(&["touch_func", "cap_func", "shadow_func"]), "var": var, "op": gen_op(&mut r), "computed": computed})),
                 18 if var >= slots => {
                     // replace the builder, then (usually) something that only looks like another write
-                    steps.push(json!({"s": r.pick(&["reassign", "reassign", "block_reassign"]), "var": var, "program": program(&mut r), "computed": computed}));
+                    steps.push(json!({"s": r.pick(&["reassign", "reassign", "block_reassign", "reset_func"]), "var": var, "program": program(&mut r), "computed": computed}));
                     match r.below(4) {
                         0 => {}
                         1 | 2 => steps.push(json!({"s": "maybe_reset", "var": var})),
